@@ -512,7 +512,19 @@ def run_case(case):
                                           f'{want} were carried by records '
                                           f'before the altered one; '
                                           f'{tm.applied}'})
-                        elif len(got) < want and rx_api == 'callback':
+                        elif len(got) < want and rx_api == 'callback_paused':
+                            # recorded finding: a channel whose reading is
+                            # paused drops its backlog when the connection
+                            # fails, although those bytes preceded the
+                            # alteration
+                            viol.append({
+                                'mechanism':
+                                'paused_backlog_discarded_on_error',
+                                'detail': f'{len(got)} of {want} bytes that '
+                                          f'arrived intact before the '
+                                          f'altered record reached the '
+                                          f'application; {tm.applied}'})
+                        elif len(got) < want:
                             viol.append({
                                 'mechanism': 'data_before_tamper_lost',
                                 'detail': f'{len(got)} bytes delivered, '
